@@ -598,8 +598,9 @@ def _replay_layers(nlayers, dest, nodata, nd, h, w, bs, obs, exists, overwrite, 
             prove("one_overview_per_supplied_layer", len(ov) == nlayers - 1)
             for i in range(1, nlayers):
                 lay = layers[i]
-                got = ds.read(1, out_shape=tuple(lay.shape))
-                prove(f"overview{i}_holds_the_supplied_layer", bool((got == 10 + i).all()))
+                # (read through overview_level: a decimated read of a 1-pixel image returns the full-resolution pixel)
+                with (rasterio.MemoryFile(out).open(overview_level=i - 1) if isinstance(out, bytes) else rasterio.open(out, overview_level=i - 1)) as o_:
+                    prove(f"overview{i}_holds_the_supplied_layer", tuple(o_.shape) == tuple(lay.shape) and bool((o_.read(1) == 10 + i).all()))
 
 
 def h_front_layers(dest):
@@ -631,7 +632,9 @@ def h_front_layers(dest):
             ds = rasterio.MemoryFile(out).open() if isinstance(out, bytes) else rasterio.open(out)
             with ds:
                 prove("pixels_read_back_identical", bool((ds.read(1) == pix).all()))
-                prove("supplied_overview_is_in_the_file", ds.overviews(1) == [2] and bool((ds.read(1, out_shape=tuple(g2.shape)) == 7).all()))
+                # (read through overview_level: a decimated read of a 1-pixel image returns the full-resolution pixel)
+                with (rasterio.MemoryFile(out).open(overview_level=0) if isinstance(out, bytes) else rasterio.open(out, overview_level=0)) as o_:
+                    prove("supplied_overview_is_in_the_file", len(ds.overviews(1)) == 1 and tuple(o_.shape) == tuple(g2.shape) and bool((o_.read(1) == 7).all()))
                 prove("nodata_reads_back", ds.nodata == -9999)
         return
     seen = []
